@@ -155,7 +155,7 @@ def main(argv):
     ap.add_argument("props", nargs="*")
     ap.add_argument("--root", default="/repo")
     a = ap.parse_args(argv)
-    props = a.props or sorted(p[:-3].upper() for p in os.listdir(os.path.join(HERE, "vf", "variants")) if p.startswith("c") and p.endswith(".py"))
+    props = a.props or sorted(p[:-3].upper() for p in os.listdir(os.path.join(HERE, "vf", "props")) if len(p) == 6 and p.startswith("c") and p.endswith(".py"))
     rc = 0
     for p in props:
         prog = model.Program(a.root)
